@@ -71,6 +71,7 @@ type c14Hist struct {
 	Closures map[string][]string  `json:"closures"` // prog -> closure (generator's notion)
 	StdUsed  map[string][]string  `json:"std_used"`
 	Decoys   []string             `json:"decoys"`
+	Ghosts   []string             `json:"ghosts,omitempty"` // names an import of a std library looks at FIRST and that do not exist: closure members whose normal state is "absent"
 	Wide     bool                 `json:"wide,omitempty"` // the world holds 40-70 programs that import a module each
 	Long     bool                 `json:"long,omitempty"` // the world holds fill.tsh and probe0..2.tsh, and the history ends with some hundred calls
 	Twins    bool                 `json:"twins,omitempty"` // the world holds tw/one/util.tsh and tw/two/util.tsh with the same bytes
@@ -258,6 +259,16 @@ func (h *c14Hist) materialise(env *Env) (*simrt.History, []*c14Key) {
 				out.Steps = append(out.Steps, simrt.Step{Kind: "remove", File: path.Join(mount, s.Rel)}, simrt.Step{Kind: "write", File: path.Join(mount, s.Rel), Data: data})
 				keys = append(keys, nil, nil)
 			}
+		case "ghost":
+			if s.Gone {
+				delete(content, s.Rel)
+				out.Steps = append(out.Steps, simrt.Step{Kind: "remove", File: path.Join(mount, s.Rel)})
+			} else {
+				data := []byte(fmt.Sprintf("func Contains(a string, b string) bool {\n\treturn true\n}\nfunc Shell() string {\n\treturn \"local %d\"\n}\nfunc Repeat(s string, n int) string {\n\treturn s\n}\n", s.Version))
+				content[s.Rel] = data
+				out.Steps = append(out.Steps, simrt.Step{Kind: "write", File: path.Join(mount, s.Rel), Data: data})
+			}
+			keys = append(keys, nil)
 		case "decoy":
 			if len(h.Decoys) == 0 {
 				continue
@@ -415,6 +426,32 @@ func c14GenOdd(r *Run, rng *gen.Rng, corpus []string, oddPool []string) *c14Hist
 	for _, p := range h.Progs {
 		h.Closures[p], h.StdUsed[p] = gw.ClosureOf(p)
 	}
+	// negative dependencies: an import of a std library first looks for a file of that name next
+	// to the importing file. Where none exists the name is a "ghost": a closure member whose usual
+	// state is absent, and which a step of the history may create and remove again.
+	ghostSeen := map[string]bool{}
+	for _, p := range h.Progs {
+		for _, c := range append([]string{}, h.Closures[p]...) {
+			for _, lib := range gw.StdOf[c] {
+				cand := path.Join(path.Dir(c), lib)
+				if gw.Get(cand) != nil {
+					continue
+				}
+				if !ghostSeen[cand] {
+					ghostSeen[cand] = true
+					h.Ghosts = append(h.Ghosts, cand)
+				}
+				dup := false
+				for _, x := range h.Closures[p] {
+					dup = dup || x == cand
+				}
+				if !dup {
+					h.Closures[p] = append(h.Closures[p], cand)
+				}
+			}
+		}
+	}
+	sort.Strings(h.Ghosts)
 	// alternative versions of every non-decoy file
 	for _, f := range gw.Files {
 		isDecoy := false
@@ -478,6 +515,7 @@ func c14GenOdd(r *Run, rng *gen.Rng, corpus []string, oddPool []string) *c14Hist
 		return simrt.Bytes(src)
 	}
 	edited := map[string]int{}
+	ghostUp := map[string]bool{}
 	n := rng.Range(10, 36)
 	if r.Tier == "thorough" && rng.Chance(30) {
 		n = rng.Range(30, 60)
@@ -520,6 +558,10 @@ func c14GenOdd(r *Run, rng *gen.Rng, corpus []string, oddPool []string) *c14Hist
 			// the same bytes at the same place, as a symbolic link or as a regular file again
 			rels := sortedKeys(h.Versions)
 			h.Steps = append(h.Steps, c14Step{Kind: "relink", Rel: rng.Pick(rels), AsLink: rng.Chance(65)})
+		case k >= 76 && k < 78 && len(h.Ghosts) > 0:
+			g := rng.Pick(h.Ghosts)
+			ghostUp[g] = !ghostUp[g] || rng.Chance(25)
+			h.Steps = append(h.Steps, c14Step{Kind: "ghost", Rel: g, Gone: !ghostUp[g], Version: rng.Intn(2)})
 		case k < 78:
 			if len(h.Decoys) > 0 {
 				h.Steps = append(h.Steps, c14Step{Kind: "decoy", Decoy: rng.Intn(len(h.Decoys)), Data: decoyData(), Gone: rng.Chance(35)})
@@ -538,6 +580,11 @@ func c14GenOdd(r *Run, rng *gen.Rng, corpus []string, oddPool []string) *c14Hist
 	for _, rel := range sortedKeys(edited) {
 		if edited[rel] != 0 {
 			h.Steps = append(h.Steps, c14Step{Kind: "edit", Rel: rel, Version: 0})
+		}
+	}
+	for _, g := range sortedKeys(ghostUp) {
+		if ghostUp[g] {
+			h.Steps = append(h.Steps, c14Step{Kind: "ghost", Rel: g, Gone: true})
 		}
 	}
 	if h.Long {
@@ -879,6 +926,8 @@ func c14Shape(h *c14Hist) string {
 			sb.WriteString(c)
 		case "edit":
 			sb.WriteString("e")
+		case "ghost":
+			sb.WriteString("g")
 		case "decoy":
 			sb.WriteString("d")
 		case "relink":
